@@ -1,7 +1,7 @@
 (** go-cose's Sign1Message.UnmarshalCBOR + psatoken's UnmarshalCOSE at byte
     level.  Header maps are modelled exactly for the shapes psatoken itself
     produces and the common kid parameter (protected: empty or {1: int};
-    unprotected: {} or {4: bstr}); any other header content is reported as
+    unprotected: {}, {4: bstr}, {1: int}, {1: int, 4: bstr}); any other header content is reported as
     outside the model.  Verification uses the bytes of the three signed
     parts (protected content, payload, signature). *)
 From Coq Require Import String.
@@ -50,10 +50,20 @@ Definition dec_protected (content : bytes) : hres :=
       end
   end.
 
+(** unprotected header: go-cose also accepts an algorithm parameter here (integer or text);
+    [HOk (Some 0)] flags its presence -- psatoken never reads it *)
+Definition unprot_alg_value (v : cbor) : bool :=
+  match v with
+  | CUint _ | CNint _ => match key_z v with Some a => (- 2 ^ 63 <=? a)%Z && (a <? 2 ^ 63)%Z | None => false end
+  | _ => false
+  end.
+
 Definition dec_unprotected (c : cbor) : hres :=
   match c with
   | CMap [] => HOk None
   | CMap [(CUint 4, CBytes _)] => HOk None
+  | CMap [(CUint 1, v)] => if unprot_alg_value v then HOk (Some 0%Z) else HUnmodelled
+  | CMap [(CUint 1, v); (CUint 4, CBytes _)] => if unprot_alg_value v then HOk (Some 0%Z) else HUnmodelled
   | CMap _ => HUnmodelled
   | _ => HErr
   end.
@@ -78,6 +88,7 @@ Definition cose_decode (b : bytes) : dres envelope :=
                         | HUnmodelled, _ => DUnmodelled
                         | HOk _, HErr => DErr
                         | HOk _, HUnmodelled => DUnmodelled
+                        | HOk (Some _), HOk (Some _) => DUnmodelled       (* the parameter in both buckets *)
                         | HOk a, HOk _ =>
                             match opl with
                             | None => DErr                         (* nil payload: no claims *)
